@@ -725,7 +725,10 @@ class ListenerItem(ListenerBase):
 
         if remove:
             handler = next.unregister
-        elif self.deferred:
+        elif self.deferred and name not in object.__dict__:
+            # Nothing has been assigned yet: the items are hooked up when the
+            # trait first changes. A value that is already there (post_init
+            # listeners, unpickled state) is handled now, as for simple links.
             return INVALID_DESTINATION
         else:
             handler = next.register
@@ -820,7 +823,10 @@ class ListenerItem(ListenerBase):
 
         if remove:
             handler = next.unregister
-        elif self.deferred:
+        elif self.deferred and name not in object.__dict__:
+            # Nothing has been assigned yet: the items are hooked up when the
+            # trait first changes. A value that is already there (post_init
+            # listeners, unpickled state) is handled now, as for simple links.
             return INVALID_DESTINATION
         else:
             handler = next.register
